@@ -183,6 +183,8 @@ func c10(c *Ctx) {
 		}
 	}
 	boundsFor(c, "C10", entries)
+	accFreshFor(c, 2, "codecs/h264_packet.go")
+	c.R.Infof("CTR.copyfill: %d tail cop(ies) into a per-fragment buffer checked", c.copyFillSeen)
 	r.Infof("CTR.twofrag: %d fragment loop(s) recognised and reached (a loop of another shape is not decided)", len(c.fragLoopsSeen))
 	r.Infof("CTR.lenprefix: %d length-prefix/data pair(s) recognised and reached", len(c.lenPairsSeen))
 	structC10(c)
@@ -367,6 +369,8 @@ func c11(c *Ctx) {
 		}
 	}
 	boundsFor(c, "C11", entries)
+	accFreshFor(c, 1, "codecs/vp8_packet.go")
+	c.R.Infof("CTR.copyfill: %d tail cop(ies) into a per-fragment buffer checked", c.copyFillSeen)
 }
 
 func stringsJoin(s []string) string {
@@ -465,6 +469,8 @@ func c12(c *Ctx) {
 		}
 	}
 	boundsFor(c, "C12", entries)
+	accFreshFor(c, 4, "codecs/vp9_packet.go", "codecs/vp9/")
+	c.R.Infof("CTR.copyfill: %d tail cop(ies) into a per-fragment buffer checked", c.copyFillSeen)
 }
 
 // fragmentLayoutMixed: rows whose sources use different prefixes (recv. for pictureID, $h for the header).
